@@ -48,7 +48,7 @@ Theorem one_responder s cfg rq :
 Proof.
   unfold serve.
   destruct (c_sf cfg && str_eqb (q_path rq) (gen_base s ++ slash :: s_spec_name s)); [reflexivity|].
-  destruct (route_root (c_cors cfg) (gen_base s) (gen_tree s) (q_path rq) (q_method rq)) as [[it op|it]|].
+  destruct (route_root true (gen_base s) (gen_tree s) (q_path rq) (q_method rq)) as [[it op|it]|].
   - (* a handler was selected *)
     assert (Hf : forall mid, filter is_responder
               (map (fun i => Enter i (i_raw it)) (seq 0 (c_mw cfg)) ++ mid ++ rev (map Leave (seq 0 (c_mw cfg)))) =
@@ -69,6 +69,6 @@ Proof.
           rewrite (Hf (evs ++ [HandlerEv (o_method op) (i_raw it) (Some i)])), filter_app, Hna. reflexivity. }
         rewrite !Ht. reflexivity.
       * rewrite !(Hf evs), !Hna. reflexivity.
-  - destruct (i_cors it) as [[ms hs]|]; reflexivity.
+  - destruct (i_cors it) as [[ms hs]|]; [destruct (c_cors cfg), (c_nf cfg)|]; reflexivity.
   - destruct (c_nf cfg); reflexivity.
 Qed.
